@@ -916,6 +916,9 @@ func (c *Ctx) execInstr(fr *Frame, b *ssa.BasicBlock, st *State, in ssa.Instruct
 		p := &Ptr{Key: key, Base: ref, ET: et}
 		c.store(st, p, c.sorts.zero(et))
 		fr.vals[x] = Val{T: x.Type(), S: ref, P: p}
+		if fr.top && privateAlloc(x) {
+			c.privRefs = append(c.privRefs, privRef{key, ref})
+		}
 		return true
 	case *ssa.Phi:
 		if _, ok := fr.vals[x]; ok { // loop header phi already havocked
@@ -1716,4 +1719,84 @@ func (c *Ctx) assumeTypeInv(st *State, p *Ptr) {
 	}
 	c.trusted["type invariant assumed: "+n.Obj().Name()+": "+ti.Text] = true
 	c.assume(st.reach, fmt.Sprintf("(=> (not (= %s 0)) %s)", p.Base, g))
+}
+
+// privateAlloc: the allocated object is only ever accessed through field /
+// element addresses and loads in this function, or returned - it is never
+// stored anywhere, passed to a call, captured or converted, so no other code
+// can reach it before the function returns.
+func privateAlloc(a *ssa.Alloc) bool {
+	seen := map[ssa.Value]bool{}
+	var ok func(v ssa.Value, isAddr bool) bool
+	ok = func(v ssa.Value, isAddr bool) bool {
+		if seen[v] {
+			return true
+		}
+		seen[v] = true
+		refs := v.Referrers()
+		if refs == nil {
+			return false
+		}
+		for _, r := range *refs {
+			switch x := r.(type) {
+			case *ssa.DebugRef, *ssa.Return:
+			case *ssa.FieldAddr:
+				if !ok(x, true) {
+					return false
+				}
+			case *ssa.IndexAddr:
+				if !ok(x, true) {
+					return false
+				}
+			case *ssa.Store:
+				if x.Val == v {
+					return false // the reference itself is stored somewhere
+				}
+			case *ssa.UnOp:
+				if x.Op != token.MUL {
+					return false
+				}
+				// loading a value out of the object is fine (the loaded value is not the object)
+			case *ssa.Phi:
+				if !ok(x, isAddr) {
+					return false
+				}
+			case *ssa.BinOp:
+				// comparisons with nil
+			case *ssa.MakeClosure:
+				// captured by a closure that is only deferred or called on the spot, and whose
+				// body uses the captured variable only through loads, stores and field addresses
+				fn, isFn := x.Fn.(*ssa.Function)
+				if !isFn || x.Referrers() == nil {
+					return false
+				}
+				for _, cr := range *x.Referrers() {
+					switch y := cr.(type) {
+					case *ssa.Defer:
+						if y.Call.Value != x {
+							return false
+						}
+					case *ssa.Call:
+						if y.Call.Value != x {
+							return false
+						}
+					case *ssa.DebugRef:
+					default:
+						return false
+					}
+				}
+				for i, bv := range x.Bindings {
+					if bv == v && i < len(fn.FreeVars) {
+						if !ok(fn.FreeVars[i], true) {
+							return false
+						}
+					}
+				}
+			default:
+				return false
+			}
+		}
+		return true
+	}
+	return ok(a, false)
 }
